@@ -211,6 +211,18 @@ def run (cfg : Cfg) (s : State) : List Op → State
   | [] => s
   | op :: ops => run cfg (step cfg s op).st ops
 
+/-! ### support for the source translation (`Operon/Gen/TelomereTranslated.lean`, generated) -/
+
+/-- Python `x or d` on an optional int: `None` and `0` are falsy -/
+def pyOr : Option Nat → Nat → Nat
+  | none, d => d
+  | some 0, d => d
+  | some a, _ => a
+
+/-- what the translator emits for a method that left its supported subset; never equal to `step` on all states -/
+def untranslatable (_construct : String) : State × List Ev × Ret :=
+  (⟨.terminated, -1, 0, 0, 0, none, none, none, 0⟩, [], .unit)
+
 /-- the public method an operation calls (`none` for the clock) -/
 def Op.method : Op → Option String
   | .start => some "start"
